@@ -511,7 +511,7 @@ def run_impl(case):
     import signal
     limit = CASE_LIMIT_S if _timeouts[0] == 0 else 1
     if _timeouts[0] > 20:
-        raise core.HarnessTimeout("more than 20 container calls did not return within the limit")
+        return ["SKIPPED"]          # enough calls hung already; the verdict comes from the cases that were run
     out = []
     old = signal.signal(signal.SIGALRM, _alarm)
     signal.setitimer(signal.ITIMER_REAL, limit)
@@ -1199,9 +1199,26 @@ class CHECK(core.Check):
             k = len(out) - 1
             why = self.oracle({"kind": case["kind"], "ops": case["ops"][:k - 1]}, out[:k])
             if why is None:
-                raise core.HarnessTimeout("call %d (%s) did not return within the limit and nothing before it violates "
-                                          "the property" % (k, " ".join(case["ops"][k - 1]) if k - 1 < len(case["ops"]) else "?"))
+                self._pure_timeouts.append("call %d (%s)" % (k, " ".join(case["ops"][k - 1]) if k - 1 < len(case["ops"]) else "?"))
+                return None
             return why + "  [a later call (%d) did not return]" % k
+        if out == ["SKIPPED"]:
+            return None
+        why = self._oracle(case, out)
+        if why is not None:
+            self._any_failure = True
+        return why
+
+    _pure_timeouts = []
+    _any_failure = False
+
+    def extra_evidence(self):
+        if self._pure_timeouts and not self._any_failure:
+            raise core.HarnessTimeout("%d container call(s) did not return within the limit and nothing observed before them "
+                                      "violates the property; first: %s" % (len(self._pure_timeouts), self._pure_timeouts[0]))
+        return {}
+
+    def _oracle(self, case, out):
         for n, line in enumerate(out):
             if " !" in line or "?" in line or "ERR other" in line or line.startswith("HARNESS-EXC"):
                 return "step %d %s: %s" % (n, " ".join(case["ops"][n - 1]) if n else "", line[-160:])
